@@ -210,7 +210,13 @@ def check_template(sylt, tpl, bounds, stats, oracle="equiv", _pin=None):
             res["paths_lua"] += 1
             if p["kind"] == "undecided": res.setdefault("undecided_why", {}); res["undecided_why"][p.get("why", "")[:120]] = res["undecided_why"].get(p.get("why", "")[:120], 0) + 1
             if p["kind"] != "ok": continue
-            if oracle == "equiv":
+            if p["outcome"][0] == "cut":
+                # the Lua path ran into a bound; the reference finished: the events before the cut must be a prefix of the reference's events
+                k = len(p["events"])
+                if k == 0: continue
+                if k > len(val_r["events"]): d = True
+                else: d = traces_differ(val_r["events"][:k], ("ok",), p["events"], ("ok",))
+            elif oracle == "equiv":
                 d = traces_differ(val_r["events"], val_r["outcome"], p["events"], p["outcome"])
             else:
                 d = oracle(val_r, p)
@@ -313,7 +319,7 @@ def check_soundness(sylt, tpl, bounds, stats):
     for p in paths:
         res["paths_lua"] += 1
         if p["kind"] != "ok": continue
-        why = soundness_violation(p)
+        why = soundness_violation(p)           # (a path cut by a bound has outcome "cut": only its undeclared reads count)
         if why is None: continue
         s = z3.Solver(); s.set("timeout", bounds.timeout_ms); s.add(base); s.add(p["pc"])
         r = stats.check(s); res["queries"] += 1
